@@ -60,7 +60,7 @@ def generic_main(mod, modname, pid, tier, seed, repo, t0):
         if i in dump_idx:
             o["dump_dir"] = dump_dir
         o["canary"] = i < n_canary or p.get("canary", False)
-        o["xcheck"] = i in xs
+        o["xcheck"] = i in xs and not p.get("noxcheck")
         o["profile"] = i < 2
         o["xcheck_n"] = getattr(mod, "XCHECK_VECTORS", 3)
         jobs.append((modname, p, o))
